@@ -433,7 +433,7 @@ class NameMap:
     def __init__(self, sc: dict, dests: list[str] | None = None) -> None:
         dests = dests or [sc['dest']]
         self.dir = os.path.dirname(dests[0])
-        self.files: list[str] = [os.path.basename(d) for d in dests]
+        self.files: list[str] = list(dict.fromkeys(os.path.basename(d) for d in dests))
         for name in sorted(sc['init']):
             if os.path.dirname(name) != self.dir:
                 continue
@@ -852,7 +852,7 @@ def scenarios(ck: Ck) -> list[dict]:
     add('unbuffered', chunks=c3, bufsize=1)
     add('small-buffer', chunks=c3 + [b'DDDDDDDD'], bufsize=6)
     add('stale-temp', chunks=c3, bufsize=1, init={'out.bin': OLD, 'tmp_1': b'STALE1', 'tmp_2': b'STALE2', 'keep.txt': b'k'})
-    many = 150 if is_big(ck) else 12
+    many = 60 if is_big(ck) else 12
     add(f'stale-temps-1-to-{many}', chunks=c3[:2], bufsize=1,
         init={'out.bin': OLD, 'keep.txt': b'k', **{f'tmp_{i}': b'STALE%d' % i for i in range(1, many + 1)}})
     add('stale-temps-with-gap', chunks=c3[:2], bufsize=8192,
@@ -863,6 +863,8 @@ def scenarios(ck: Ck) -> list[dict]:
     add('new-subdir', chunks=c3, dest='sub/dir/out.bin', init={'keep.txt': b'keep'})
     add('empty-body', chunks=[])
     add('text', chunks=['héllo\n', 'wörld\n'], text=True, encoding='utf16', bufsize=4)
+    add('text-stale-temp', chunks=['ab\n', 'cd\n'], text=True, encoding='utf8', bufsize=8192,
+        init={'out.bin': OLD, 'tmp_1': b'STALE1', 'tmp_2': b'STALE2', 'keep.txt': b'k'})
     for ra in (0, 1, 3):
         add(f'raise-after-{ra}', chunks=c3, bufsize=1, raise_after=ra)
     add('raise-buffered', chunks=c3, raise_after=2)
@@ -971,8 +973,10 @@ class Pair:
             for j, ch in enumerate(s['chunks']):
                 self.wmap[10 * (w + 1) + j + 1] = (off, ch)
                 off += len(ch)
-        self.scen = [coq_scen(w, toks[w], [], s.get('raise_after')) for w, s in enumerate((sa, sb))]
+        self.scen = [coq_scen(self.nm.files.index(os.path.basename(s['dest'])), toks[w], [], s.get('raise_after'))
+                     for w, s in enumerate((sa, sb))]
         self.new = [b''.join(s['chunks']) if s.get('raise_after') is None else init.get(s['dest']) for s in (sa, sb)]
+        self.same_dest = sa['dest'] == sb['dest']
         self.max_tmp = max([NameMap.tmp_index(b) or 0 for b in init] + [0]) + 3
 
 
@@ -986,7 +990,24 @@ def two_check(ck: Ck, P: Pair, r: dict, fault_at: int | None, do_model: bool, ca
     rp = replay_obj('two', dict(kind=P.tag, init=init, dest=sa['dest']), a=_hexsc(sa), b=_hexsc(sb), schedule=ex,
                     **({'fault_at': fault_at} if fault_at is not None else {}))
     sfx = '-with-fault' if hit else ''
+    if P.same_dest:
+        # same destination: the last successful rename decides; the content must be complete (old / all of A / all of B)
+        last = [o['w'] for o in r['ops'] if o['op'] == 'replace' and o['res'] == 'ok']
+        exp = b''.join((sa, sb)[last[-1]]['chunks']) if last else init.get(sa['dest'])
+        if lst.get(sa['dest']) != exp:
+            ck.violation('two-writers:same-destination-wrong-content' + sfx,
+                         f'{sa["dest"]} holds {lst.get(sa["dest"])!r:.40}, expected {exp!r:.40} (renames by {last})', rp)
     for w, s in enumerate((sa, sb)):
+        if P.same_dest and w != fw:
+            exp_out = 'ok' if s.get('raise_after') is None else 'body'
+            if r['outcomes'][w] != exp_out:
+                ck.violation('two-writers:unexpected-outcome' + sfx, f'writer {w} ended with {r["outcomes"][w]}', rp)
+            continue
+        if P.same_dest:
+            if r['outcomes'][w] == 'ok' or r['outcomes'][w].startswith('other'):
+                ck.violation('two-writers:unexpected-outcome-with-fault',
+                             f'writer {w} got an OSError in {hit[0]["op"]} but ended with {r["outcomes"][w]}', rp)
+            continue
         exp_out = 'ok' if s.get('raise_after') is None else 'body'
         if w == fw:
             if r['outcomes'][w] == 'ok' or r['outcomes'][w].startswith('other'):
@@ -1052,6 +1073,8 @@ def two_writer_campaign(ck: Ck, do_model: bool) -> None:
               {'a.bin': b'OLDA', 'b.bin': b'OLDB', 'tmp_2': b'STALE2'}), 6000 if big else 0),
         (Pair('fresh+stale-gap', dict(dest='a.bin', chunks=[b'A1', b'A2', b'A3']), dict(dest='b.bin', chunks=[]),
               {'tmp_1': b'S1', 'tmp_3': b'S3', 'keep.txt': b'k'}), 0),
+        (Pair('same-destination', dict(dest='a.bin', chunks=[b'A1', b'A2']), dict(dest='a.bin', chunks=[b'B1']),
+              {'a.bin': b'OLDA', 'keep.txt': b'k', 'tmp_1': b'S1'}), 3000 if big else 0),
         (Pair('both-raise', dict(dest='a.bin', chunks=[b'A1', b'A2'], raise_after=2), dict(dest='b.bin', chunks=[b'B1'], raise_after=0),
               {'a.bin': b'OLDA', 'b.bin': b'OLDB'}), 0),
     ]
